@@ -60,13 +60,13 @@ Proof. exact decide_wait_load. Qed.
    within the hard limit (accounting); nobody waits and no chunk is marked loading unless a storage call is in
    flight, and awaiters sit only on chunks being loaded. *)
 Theorem C23_all_clauses_bounded_partial :
-  forall ops, length ops = 4%nat -> Forall (fun o => In o alpha1) ops -> run_ok 2 24 1456 [] (st0, []) ops = true.
+  forall ops, length ops = 4%nat -> Forall (fun o => In o alpha1) ops -> run_ok 2 24 1456 false [] (st0, []) ops = true.
 Proof. exact bounded_all_clauses. Qed.
 
 (* the same clauses for every history of 6 calls over alpha2 (20 s tick, two overlapping requests, their storage
    calls, an invalidation): long enough for load / await / invalidate / reload / hit sequences *)
 Theorem C23_all_clauses_bounded_deep_partial :
-  forall ops, length ops = 6%nat -> Forall (fun o => In o alpha2) ops -> run_ok 2 24 1456 [] (st0, []) ops = true.
+  forall ops, length ops = 6%nat -> Forall (fun o => In o alpha2) ops -> run_ok 2 24 1456 false [] (st0, []) ops = true.
 Proof. exact bounded_all_clauses_deep. Qed.
 
 (* ---- non-vacuity ---- *)
@@ -89,13 +89,13 @@ Proof. vm_compute. repeat split; reflexivity || (intro; discriminate) || auto. Q
 Definition ex_h := [Get 1 1 1 (-8) (-4) 0 false; Get 2 1 1 (-5) (-2) 0 false; LoadDone 1 true; LoadDone 2 true; Tick 40000;
                     Get 6 1 1 (-8) (-4) 0 false; Invalidate 1 [-7]; Get 8 1 1 (-8) (-4) 0 false; LoadDone 3 true; Reset].
 Example C23_nonvacuous_history :
-  nth 3 (snd (run 2 24 1456 st0 ex_h)) [] =
+  nth 3 (snd (run 2 24 1456 false st0 ex_h)) [] =
     [(2, false, [Some (mkCell 1 1 (-5) 1); Some (mkCell 1 1 (-4) 2); Some (mkCell 1 1 (-3) 2)])] /\
-  nth 8 (snd (run 2 24 1456 st0 ex_h)) [] =
+  nth 8 (snd (run 2 24 1456 false st0 ex_h)) [] =
     [(6, false, [Some (mkCell 1 1 (-8) 3); Some (mkCell 1 1 (-7) 3); Some (mkCell 1 1 (-6) 3); Some (mkCell 1 1 (-5) 3)]);
      (8, false, [Some (mkCell 1 1 (-8) 3); Some (mkCell 1 1 (-7) 3); Some (mkCell 1 1 (-6) 1); Some (mkCell 1 1 (-5) 1)])] /\
-  inf (fst (run 2 24 1456 st0 ex_h)) = info0 /\
-  run_ok 2 24 1456 [] (st0, []) ex_h = true.
+  inf (fst (run 2 24 1456 false st0 ex_h)) = info0 /\
+  run_ok 2 24 1456 false [] (st0, []) ex_h = true.
 Proof. vm_compute. repeat split; reflexivity. Qed.
 
 (* the swept sets are not trivial: 12^4 and 6^6 histories *)
